@@ -13,7 +13,7 @@ from mzverif.core import Sub, call, require
 
 ID = "C20"
 LEVEL = "exploration"
-TECHNIQUE = "Hypothesis over mazes of the three kinds (square up to 13x13, wide and tall, int8..int64 paths), unit lengths 3..16, node values, extra true / predicted paths (revisiting cells), same-flags-other-shape twins plotted in one process, the same plot object drawn again after its paths changed, path arrays reused by the caller before drawing; oracle = image blocks and strips read back from the Agg figure against the graph model, line / quiver artists against the listed cells, ASCII export against the independent renderer"
+TECHNIQUE = "Hypothesis over mazes of the three kinds (square up to 13x13, wide and tall, int8..int64 paths), unit lengths 3..16, node values, extra true / predicted paths (revisiting cells), same-flags-other-shape twins plotted in one process, the same plot object drawn again after its paths changed, path arrays reused by the caller before drawing; oracle = image blocks and strips read back from the Agg figure against the graph model, line / quiver artists against the listed cells, ASCII export against the independent renderer; cell values of another grid refused before the plot, plots into caller-owned axes, arrow end points through the quiver scale"
 RULE = (
     "case = (connection bits, kind, solution, unit_length 3..16, optional matrix of cell values, extra true / predicted paths as lists "
     "or arrays). Non-trivial = >= 1 connection, >= 1 wall and a plotted path with a turn; distinct by canonical case digest."
@@ -197,6 +197,9 @@ def _check_one(case: dict):
             require(len(quivers) == len(preds), "C20:predicted-path-count", f"{len(quivers)} quiver artists for {len(preds)} predicted paths")
             for q, pp in zip(quivers, preds):
                 X, Y, U, V = (np.asarray(v, dtype=float).ravel() for v in (q.X, q.Y, q.U, q.V))
+                if getattr(q, "scale_units", None) == "xy" and getattr(q, "angles", None) == "xy" and getattr(q, "scale", None):
+                    # arrows given in data units: the drawn arrow k runs from (X,Y) to (X,Y) + (U,V) / scale
+                    U, V = U / float(q.scale), V / float(q.scale)
                 pts = [(float(x), float(y)) for x, y in zip(X, Y)] + ([(float(X[-1] + U[-1]), float(Y[-1] + V[-1]))] if len(X) else [])
                 ok = pts == _xy(pp, ul) and all(abs((X[k] + U[k]) - _xy(pp, ul)[k + 1][0]) < 1e-9 and abs((Y[k] + V[k]) - _xy(pp, ul)[k + 1][1]) < 1e-9 for k in range(len(X)))
                 require(ok, "C20:predicted-path-wrong", f"arrows through {pts[:5]}.., expected {_xy(pp, ul)[:5]}..")
